@@ -1,17 +1,24 @@
 #!/bin/bash
-# usage: tools/try_refactors.sh <worktree-with-_out/refactor-N.diff> [props...]
-# Applies each behaviour-preserving refactoring in the given scratch worktree (never in
-# /repo), runs the quick checks of all (or the given) properties against that worktree
-# in parallel and prints every alarm: each one is a false alarm to be triaged.
+# usage: tools/try_refactors.sh [CNN ...]      (default: every directory under /verif/refactors)
+# /verif/refactors/CNN/refactor-N.diff are behaviour-preserving refactorings of /repo written
+# by independent sub-agents (each built and passed the package tests). Each one is applied
+# in a scratch worktree of /repo (never in /repo itself), the quick checks of ALL properties
+# are run against that worktree in parallel, and every alarm is printed: on a correct
+# refactoring an alarm is a false alarm of the checker and has to be fixed in the checker.
 export GOFLAGS=-mod=mod GOPROXY=off
-W="$1"; shift
-PROPS="$@"; [ -z "$PROPS" ] && PROPS=$(seq -f 'C%02g' 1 20)
+W=$(mktemp -d /var/tmp/refaccheck.XXXXXX)
+git -C /repo worktree add -q --detach "$W" HEAD || exit 2
+trap 'git -C /repo worktree remove --force "$W" >/dev/null 2>&1; rm -rf "$W"' EXIT
 S=/var/tmp/vscratch; mkdir -p $S/evidence; cp /verif/known_findings.jsonl $S/
-for d in "$W"/_out/refactor-*.diff; do
-  n=$(basename "$d" .diff)
-  git -C "$W" checkout -q -- . ; git -C "$W" clean -qfd -e _out
-  if ! git -C "$W" apply "$d" 2>/dev/null; then echo "== $(basename $W) $n: patch does not apply"; continue; fi
-  out=$(for p in $PROPS; do echo $p; done | xargs -P 10 -I{} sh -c "/verif/bin/oxiacheck -property {} -tier quick -repo $W -verif $S 2>&1 | grep 'VIOLATED\|UNDECIDED\|^ERROR\|cannot load' | sed 's/^/{}: /'" | cut -c1-330)
-  if [ -n "$out" ]; then echo "== $(basename $W) $n ALARMS"; echo "$out"; else echo "== $(basename $W) $n quiet"; fi
+SETS="$@"; [ -z "$SETS" ] && SETS=$(ls /verif/refactors)
+rc=0
+for set in $SETS; do
+  for d in /verif/refactors/$set/refactor-*.diff; do
+    n=$(basename "$d" .diff)
+    git -C "$W" checkout -q -- . ; git -C "$W" clean -qfd
+    if ! git -C "$W" apply "$d" 2>/dev/null && ! git -C "$W" apply --3way "$d" >/dev/null 2>&1; then echo "== $set $n: patch does not apply (tree moved on)"; continue; fi
+    out=$(seq -f 'C%02g' 1 20 | xargs -P 10 -I{} sh -c "/verif/bin/oxiacheck -property {} -tier quick -repo $W -verif $S 2>&1 | grep 'VIOLATED\|UNDECIDED\|^ERROR\|cannot load' | sed 's/^/{}: /'" | cut -c1-330)
+    if [ -n "$out" ]; then echo "== $set $n ALARMS"; echo "$out"; rc=1; else echo "== $set $n quiet"; fi
+  done
 done
-git -C "$W" checkout -q -- . ; git -C "$W" clean -qfd -e _out
+exit $rc
